@@ -27,6 +27,8 @@ META = {
 META['explanation'] += ' ' + "R7: TXT chunking (see C01.R8). R8: the SPF network composer evaluated for both address families (prefix omitted only at the family's maximum). R9: compose has no effect on the object (effect analysis of C13.R1 restricted to compose)."
 META['explanation'] += ' ' + 'R10: timestamp / flag primitives (C11.R4/R5). R11: parse_date_time and every function printing a date with a literal zone evaluated over date texts with a model of dateutil (naive / aware / offset / fraction / end of calendar). R12: convert / _get_value_as_simple_type of the component kinds that change type, on JSON numbers. R13: DNSKEY RSA and DSA key fields as parse-compose-parse pipelines. R1 acceptance: DNS names and SNI host names evaluated with the real idna codec - accepted means composable.'
 
+META['explanation'] += ' ' + 'R14: numeric presence by truth value (shared with C01.R14). R15: ECDSA points (shared with C07.R12).'
+
 ZONE_LITERALS = ('GMT', 'UTC', "Z'", '+0000', '+00:00')
 
 
